@@ -824,6 +824,12 @@ class Gen(object):
                     self.roots.add(v)
                 return ('in', ('var', v), lst)
             b = self.bound(env, t)
+            if self.o['avoid_d11'] and b:
+                # (D11) the tested variable itself must be table-bound, not derived
+                nb = [x for x in b if x in self.roots]
+                if len(nb) < len(b):
+                    self.excl('D11_in_on_derived_variable')
+                b = nb
             if b:
                 bv = rng.choice(b)
                 e2 = {k: x for k, x in env.items() if k != bv}
